@@ -856,7 +856,7 @@ impl<'a> Enc<'a> {
 	}
 
 	fn code(&mut self, c: &Code) -> Result<W, EncodeError> {
-		let layout = CodeLayout::build(c, &mut self.pool, &mut self.ch)?;
+		let layout = CodeLayout::build(c, &mut self.pool, &mut self.ch, self.major >= 51)?;
 		self.forms.extend(layout.forms_used.iter().copied());
 		let mut w = W::default();
 		w.u16(c.max_stack, "max_stack");
@@ -898,15 +898,19 @@ impl CodeLayout {
 		u16::try_from(p).map_err(|_| EncodeError::CodeTooLarge(p))
 	}
 
-	fn build(c: &Code, pool: &mut Pool, ch: &mut ChoiceStream) -> Result<CodeLayout, EncodeError> {
+	fn build(c: &Code, pool: &mut Pool, ch: &mut ChoiceStream, nonzero_padding_legal: bool) -> Result<CodeLayout, EncodeError> {
 		if c.insns.is_empty() {
 			return Err(EncodeError::BadModel("empty code".into()));
 		}
 		// pool indices of operands, and the form of every instruction
 		let mut forms: Vec<Form> = Vec::with_capacity(c.insns.len());
 		let mut operand: Vec<u16> = Vec::with_capacity(c.insns.len());
+		// what the 0-3 alignment bytes of a switch hold: JVMS 6.5 says nothing about their content; class files of version
+		// 51 and later are accepted with any (HotSpot insists on zeros below that)
+		let mut pad_fill: Vec<u8> = Vec::with_capacity(c.insns.len());
 		for insn in &c.insns {
 			let choice = ch.next();
+			pad_fill.push(if nonzero_padding_legal && choice % 4 == 3 { choice | 1 } else { 0 });
 			let (form, idx) = match insn {
 				Insn::Ldc(k) => {
 					let idx = pool.constant(k);
@@ -1067,7 +1071,10 @@ impl CodeLayout {
 					Insn::TableSwitch { default, low, targets } => {
 						w.u8(170, "opcode");
 						while w.buf.len() % 4 != 0 {
-							w.buf.push(0);
+							w.buf.push(pad_fill[i]);
+							if pad_fill[i] != 0 {
+								used.push("switch_padding_not_zero");
+							}
 						}
 						used.push(["tableswitch_pad0", "tableswitch_pad1", "tableswitch_pad2", "tableswitch_pad3"][(4 - (pcs[i] + 1) % 4) % 4]);
 						w.u32(rel(*default)? as i32 as u32, "branch32");
@@ -1081,7 +1088,10 @@ impl CodeLayout {
 					Insn::LookupSwitch { default, pairs } => {
 						w.u8(171, "opcode");
 						while w.buf.len() % 4 != 0 {
-							w.buf.push(0);
+							w.buf.push(pad_fill[i]);
+							if pad_fill[i] != 0 {
+								used.push("switch_padding_not_zero");
+							}
 						}
 						used.push(["lookupswitch_pad0", "lookupswitch_pad1", "lookupswitch_pad2", "lookupswitch_pad3"][(4 - (pcs[i] + 1) % 4) % 4]);
 						w.u32(rel(*default)? as i32 as u32, "branch32");
